@@ -733,6 +733,12 @@ func (a *Analysis) CheckC06(rep *Report) {
 						if _, _, n, m, okw := ix.window(dst.Args[1], dst.Args[2], e); okw && bb != nil && isRootBuf(m.Buf) && sameBuf(bb.Buf, m.Buf) {
 							w, _ := fixedSize(e.IntType)
 							okp = n >= w
+							if ix.wirePos[bb] != ix.wirePos[e] {
+								// something was appended between taking Bytes() and writing through it: after a reallocation
+								// the slice is no longer the buffer's storage, and whether that happens depends on the capacity
+								// the buffer happens to have
+								okp = false
+							}
 						}
 					}
 					rep.Ob("A1-patch-inside-own-bytes", key+":patch", okp, epos, "in-place write "+e.Dst.Pretty()+" is not provably inside the bytes appended by this call")
